@@ -1,7 +1,7 @@
 #!/bin/sh
 # tools/regen_evidence.sh [ids...] : run the quick checks against /repo (seed 0) so that evidence/<id>.json is current
 cd /verif
-ids="$@"; [ -z "$ids" ] && ids="C01 C02 C03 C04 C05 C06 C07 C08 C09 C10 C11 C12 C13 C14 C15 C16 C17 C18 C19 C20"
+ids="$@"; [ -z "$ids" ] && ids="C01 C02 C03 C04 C05 C06 C07 C08 C09 C10 C11 C12 C13 C14 C15 C16 C17 C18 C19 C20 X01 X02"
 for p in $ids; do
   t0=$(date +%s)
   VERIF_SEED=0 VERIF_PROCS=${VERIF_PROCS:-8} timeout 2400 ./check $p --tier quick > /tmp/regen-$p.log 2>&1
